@@ -13,6 +13,7 @@ mod micro;
 mod pair;
 mod replay;
 mod sweep;
+mod trace;
 
 use std::cell::RefCell;
 use std::io::Write;
@@ -117,6 +118,17 @@ fn main() {
                 "drift_callbacks": st.drift_cb, "drift_outcome": st.drift_out, "drift_survivors": st.drift_post, "drift_asked": st.drift_asked});
             let out = arg(&args, "--out").expect("--out");
             std::fs::write(out, serde_json::to_string_pretty(&j).unwrap()).expect("write report");
+        }
+        "trace" => {
+            let set_mode = arg(&args, "--mode").unwrap_or("map") == "set";
+            let seed: u64 = arg(&args, "--seed").map(|s| s.parse().unwrap()).unwrap_or(1);
+            let runs: usize = arg(&args, "--runs").map(|s| s.parse().unwrap()).unwrap_or(4);
+            let steps: usize = arg(&args, "--steps").map(|s| s.parse().unwrap()).unwrap_or(500);
+            let classes: u8 = arg(&args, "--classes").map(|s| s.parse().unwrap()).unwrap_or(12);
+            let caps: Vec<usize> = arg(&args, "--caps").unwrap_or("8,6,4").split(',').map(|x| x.parse().unwrap()).collect();
+            let info = trace::record(arg(&args, "--trace").expect("--trace"), set_mode, seed, runs, steps, &caps, classes);
+            let out = arg(&args, "--out").expect("--out");
+            std::fs::write(out, serde_json::to_string_pretty(&info).unwrap()).expect("write report");
         }
         "pairs" => {
             let set_mode = arg(&args, "--mode").unwrap_or("set") == "set";
